@@ -60,6 +60,8 @@ def generate(ctx, escalate=False):
         c = rng.random()
         if c < 0.08:
             b = G.rbytes(rng, rng.choice([0, 1, 2, 3, 4, 5, 6, 8, 12, 20]))
+        elif c < 0.13:
+            b = G.edge_fields(rng, proto)
         else:
             big = ctx.thorough() and rng.random() < 0.02 or rng.random() < 0.002
             m = G.gen_msg(rng, big=big, valid_len=rng.random() < 0.8)
